@@ -133,6 +133,8 @@ def prepare(tier, scratch):
                       paths=(c["group"] in ("branch", "ovf") or c["name"].startswith("fpb_")),
                       sample="interpreter: " + c["sample"]))
     obs += gen_obs(tier, scratch, cases)
+    # the few long-running obligations (mul/div, fp arithmetic, long double) first, so that they overlap with the many short ones
+    obs.sort(key=lambda o: 0 if (o.solver in ("z3", "cadical") or o.timeout > 300) else 1)
     return obs
 
 
